@@ -791,6 +791,78 @@ def _subst(t, old, new):
     return t
 
 
+def _rank_sort_term(S: Scope, e: ast.AST, at):
+    """`sorted(X, key=lambda v: RANK.get(v, len(RANK)))` with RANK = {n: i for i, n in enumerate(D)}: a stable sort by declaration
+    rank = declared names in D order first, then the rest in incoming order.  Returns the same normal form as the two-filter
+    spelling, ('sortbug', why) for a rank key that is recognisably wrong, or None when `e` is not such a sort."""
+    if not (isinstance(e, ast.Call) and isinstance(e.func, ast.Name) and e.func.id == "sorted" and len(e.args) == 1):
+        return None
+    kws = {k.arg: k.value for k in e.keywords}
+    if set(kws) - {"key", "reverse"} or "key" not in kws:
+        return None
+    key = S.single_value(kws["key"])
+    if not (isinstance(key, ast.Lambda) and len(key.args.args) == 1):
+        return None
+    v = key.args.args[0].arg
+    body = key.body
+
+    def rank_table(x):
+        """x is a dict name -> position in D: ('D',)-term of the enumerated sequence"""
+        x = S.single_value(x) if isinstance(x, ast.Name) else x
+        if isinstance(x, ast.DictComp) and len(x.generators) == 1 and not x.generators[0].ifs:
+            g = x.generators[0]
+            it = g.iter
+            if isinstance(it, ast.Call) and isinstance(it.func, ast.Name) and it.func.id == "enumerate" and len(it.args) == 1 \
+                    and not it.keywords and isinstance(g.target, ast.Tuple) and len(g.target.elts) == 2 \
+                    and all(isinstance(t, ast.Name) for t in g.target.elts) and isinstance(x.key, ast.Name) and isinstance(x.value, ast.Name) \
+                    and x.key.id == g.target.elts[1].id and x.value.id == g.target.elts[0].id:
+                return _term(S, it.args[0], at)
+        return None
+
+    def is_len_of(x, tab):
+        return isinstance(x, ast.Call) and isinstance(x.func, ast.Name) and x.func.id == "len" and len(x.args) == 1 \
+            and ast.dump(x.args[0]) == ast.dump(tab)
+    tab = dflt = None
+    bug = None
+    if isinstance(body, ast.Call) and isinstance(body.func, ast.Attribute) and body.func.attr == "get" and body.args \
+            and isinstance(body.args[0], ast.Name) and body.args[0].id == v:
+        tab = body.func.value
+        dflt = body.args[1] if len(body.args) > 1 else None
+        if dflt is None:
+            bug = "undeclared names get the rank None"
+    elif isinstance(body, ast.BoolOp) and isinstance(body.op, ast.Or) and len(body.values) == 2 and isinstance(body.values[0], ast.Call) \
+            and isinstance(body.values[0].func, ast.Attribute) and body.values[0].func.attr == "get" and body.values[0].args \
+            and isinstance(body.values[0].args[0], ast.Name) and body.values[0].args[0].id == v:
+        tab = body.values[0].func.value
+        dflt = body.values[1]
+        bug = "`rank.get(name) or default` treats declaration rank 0 like a missing name: the first declared parameter is sorted last"
+    elif isinstance(body, ast.IfExp) and isinstance(body.test, ast.Compare) and len(body.test.ops) == 1 \
+            and isinstance(body.test.ops[0], (ast.In, ast.NotIn)) and isinstance(body.test.left, ast.Name) and body.test.left.id == v:
+        tab = body.test.comparators[0]
+        hit, miss = (body.body, body.orelse) if isinstance(body.test.ops[0], ast.In) else (body.orelse, body.body)
+        if not (isinstance(hit, ast.Subscript) and ast.dump(hit.value) == ast.dump(tab) and isinstance(hit.slice, ast.Name) and hit.slice.id == v):
+            return None
+        dflt = miss
+    if tab is None:
+        return None
+    D = rank_table(tab)
+    if D is None:
+        return None
+    if kws.get("reverse") is not None and not (isinstance(kws["reverse"], ast.Constant) and kws["reverse"].value is False):
+        return ("sortbug", "sorted in reverse")
+    if bug is None and not is_len_of(dflt, tab):
+        dv = S.single_value(dflt)
+        if isinstance(dv, ast.Constant) and isinstance(dv.value, (int, float)) and dv.value <= 0:
+            bug = f"undeclared names get rank {dv.value} and are sorted to the front"
+        elif not is_len_of(dv, tab):
+            return None
+    if bug:
+        return ("sortbug", bug)
+    X = _term(S, e.args[0], at)
+    first = ("filter", D, (("In", X),))
+    return ("cat", first, ("filter", X, (("NotIn", first),)))
+
+
 def _cat_parts(t) -> list:
     if isinstance(t, tuple) and t and t[0] == "cat":
         return _cat_parts(t[1]) + _cat_parts(t[2])
@@ -823,7 +895,13 @@ def _reorder_term(ctx, rid, f):
         S = Scope(ctx, g)
         for st in walk_shallow(g.node):
             t = None
-            if isinstance(st, ast.Assign) and len(st.targets) == 1 and isinstance(st.targets[0], ast.Name) \
+            srt = _rank_sort_term(S, st.value, st) if isinstance(st, (ast.Assign, ast.Return)) and st.value is not None else None
+            if srt is not None and (isinstance(st, ast.Return) or (len(st.targets) == 1 and isinstance(st.targets[0], ast.Name))):
+                if srt[0] == "sortbug":
+                    cands.append((S, st, ("cat", ("filter", ("?", srt[1]), ()), ("filter", ("D",), ())), g, call))
+                    continue
+                t = srt
+            elif isinstance(st, ast.Assign) and len(st.targets) == 1 and isinstance(st.targets[0], ast.Name) \
                     and isinstance(strip_wrappers(st.value), ast.BinOp):
                 t = _term(S, st.value, st)
             elif isinstance(st, ast.AugAssign) and isinstance(st.target, ast.Name) and isinstance(st.op, ast.Add):
